@@ -11,6 +11,9 @@
      {', ", \\, newline, NUL, A, <} - parsed back to the transferred bytes.
  (c) every snapshot in tests/snapshots: parse -> simulator.set_snapshot -> served to a real async client on
      the virtual loop -> client block == snapshot bytes, header fields consistent.
+ (d) "served unchanged" also holds with the simulator's own unreliability feature on: its loss model's random draws
+     are choice points (answer / ignore); all vectors for a 3-segment range, deviation-bounded for the full block, both
+     clients; oracle = C01's (success => exactly the snapshot's bytes, failure => block untouched).
 """
 from __future__ import annotations
 
@@ -289,9 +292,80 @@ def _shipped_job(path):
     return name, len(snaps), out
 
 
+# ---- (d) "served unchanged" with the simulator's own unreliability switched on ---------------------------------
+class _ScriptedRandom:
+    """Stands in for the `random` module inside geckolib.utils.simulator: every draw the loss model makes while armed
+    is a choice point (0 = answer, 1 = ignore)."""
+
+    def __init__(self, ch):
+        self.ch = ch
+        self.armed = False
+
+    def random(self):
+        if not self.armed:
+            return 0.0
+        return 0.999 if self.ch.choose("simloss", 2) else 0.0
+
+    def seed(self, *a):
+        pass
+
+
+def _unreliable_job(job):
+    (kind, start, length, R), prefix = job
+    from . import c01
+    import geckolib.utils.simulator as simmod
+    from .. import explore
+
+    def body(ch):
+        rnd = _ScriptedRandom(ch)
+        orig = simmod.random
+        simmod.random = rnd
+        try:
+            rig = c01.ARig(ch) if kind == "async" else c01.TClient(ch)
+            snap = lib.default_snapshot()
+            new = bytes(snap.bytes)
+            old = bytes(255 - b for b in new)
+            rig.use_blocks(new, old)
+            rig.peer.sim._reliability = 0.5
+            rnd.armed = True
+            if kind == "async":
+                obs = rig.transfer(start, length, R=R, settle=0.5)
+            else:
+                obs = rig.transfer(start, length, N=R - 1, fates=None)
+            rnd.armed = False
+            why = c01._judge(obs, start, length, R, False, before=old, spa=new)
+            if kind == "async":
+                rig.close()
+        finally:
+            simmod.random = orig
+        viol = []
+        if why:
+            drops = [i for i, (k, n, c) in enumerate(ch.trace) if k == "simloss" and c]
+            viol.append((f"C19|unreliable-simulator|{kind}|{why[0]}",
+                         f"{kind} client fetching [{start},{start+length}) from a simulator with reliability 0.5 whose loss model ignores "
+                         f"draw(s) no. {drops} (0 = the request, k = segment k-1 of that attempt ...): {why[1]}",
+                         {"mode": "unreliable", "kind": kind, "start": start, "length": length, "R": R,
+                          "prefix": [list(p) for p in ch.trace]}))
+        res = obs["result"]
+        return {"violations": viol, "obs": core.digest([res, obs["statu"]]), "end": core.digest(bytes(obs["block"]).hex())}
+
+    return explore.run_with(prefix, body)
+
+
 def run(ctx):
     evals = 0
     nontrivial = set()
+    from .. import explore
+    for kind in ("async", "threaded"):
+        for (start, length, R, bnd) in ((100, 100, 2, 64), (0, 1024, 3, 2 if ctx.quick else 3)):
+            st = explore.explore(ctx, _unreliable_job, (kind, start, length, R), bound=bnd, choice_kinds={"simloss"},
+                                 label=f"unreliable simulator {kind} [{start},{start+length}) R={R}", max_execs=40000 if ctx.quick else 400000)
+            explore.fold_stats(ctx, st, prefix=f"unreliable_{kind}_len{length}_")
+            evals += st["executions"]
+            nontrivial.update(("unreliable", kind, length, o) for o in st["obs"])
+            if len(st["obs"]) < 2 and not st["stopped_on_violation"]:
+                raise core.HarnessError("C19: the simulator's loss model never changed an outcome - vacuous")
+    ctx.log(f"(d) simulator's own loss model: {evals} executions")
     jobs = [("blocks", lo, min(256, lo + 16)) for lo in range(0, 256, 16)]
     jobs += [("versions", lo, lo + 27) for lo in range(0, 216, 27)]
     nnames = 1 + 9 + 81 + 729
@@ -358,7 +432,10 @@ def run(ctx):
 
 def replay(ctx, data):
     m = data["mode"]
-    if m == "traffic-handshake":
+    if m == "unreliable":
+        res = _unreliable_job(((data["kind"], data["start"], data["length"], data["R"]), [tuple(p) for p in data["prefix"]]))
+        ctx.merge_violations(res["violations"])
+    elif m == "traffic-handshake":
         why = _traffic_handshake(data["segsize"])
         if why:
             ctx.violation(f"C19|traffic|{why[0]}", why[1], data)
